@@ -822,7 +822,10 @@ func mustHaveActivityActorsMatchObjectActors(c context.Context,
 		}
 		t, err := streams.ToType(c, m)
 		if err != nil {
-			return err
+			// Not the error value itself: a streams.ErrUnhandledType
+			// leaving a callback would be taken for "no callback handles
+			// this activity".
+			return fmt.Errorf("cannot verify actors: object at %s: %v", iri, err)
 		}
 		ac, ok := t.(actorer)
 		if !ok {
